@@ -17,8 +17,11 @@ GRAMMARS = {
     'nested': ([('start', A(S(C('p'), T('x')), C('p'))), ('p', A(S(C('r'), C('r')), C('r'))), ('r', A(T('a'), T('b')))], {}, {}),
     # rules whose value is a bare scalar: values that compare equal across types (1 == 1.0 == True, 0.0 == -0.0) must reach the action, and come
     # back from it, as the objects they are (results are compared type-strictly)
+    # left recursion: an exception raised by an action during a seed-growing iteration (other than FailedSemantics) reaches the caller
+    'leftrec': ([('start', S(C('e'), EOF_)), ('e', A(S(C('e'), T('+'), C('r')), C('r'))), ('r', A(T('a'), T('b')))], {}, {}),
     'scalars': ([('start', S(REP(C('r')), EOF_)), ('r', A(S(T('i'), K('1')), S(T('f'), K('1.0')), S(T('t'), K('True')), S(T('z'), K('0.0')), S(T('m'), K('-0.0')), S(T('o'), K('0'))))], {}, {}),
 }
+SEMANTICS_TATSU = ['raise_UserParseException', 'raise_UserParseError', 'raise_UserGrammarError']      # user exceptions derived from TatSu's own hierarchy
 SEMANTICS = ['identity', 'tag', 'fail_b', 'raise_KeyError', 'raise_ValueError', 'raise_IndexError', 'raise_AttributeError', 'raise_TypeError', 'raise_Custom',
              'default_only', 'explicit_params']
 SETTINGS = {'nameguard': False, 'whitespace': ''}
@@ -28,7 +31,19 @@ class CustomError(Exception):
     pass
 
 
-EXC = {'KeyError': KeyError, 'ValueError': ValueError, 'IndexError': IndexError, 'AttributeError': AttributeError, 'TypeError': TypeError, 'Custom': CustomError}
+class _LazyExc(dict):
+    """exception classes by name; the TatSu-derived ones are created on first use (tatsu is imported by the obligation, not by this module)"""
+
+    def __missing__(self, key):
+        from tatsu import exceptions as tex
+        base = {'UserParseException': tex.ParseException, 'UserParseError': tex.ParseError, 'UserGrammarError': tex.GrammarError}[key]
+        cls = type(key, (base,), {})
+        self[key] = cls
+        return cls
+
+
+EXC = _LazyExc({'KeyError': KeyError, 'ValueError': ValueError, 'IndexError': IndexError, 'AttributeError': AttributeError, 'TypeError': TypeError, 'Custom': CustomError})
+EXC_NAMES = ['KeyError', 'ValueError', 'IndexError', 'AttributeError', 'TypeError', 'CustomError', 'UserParseException', 'UserParseError', 'UserGrammarError']
 
 
 def strict(v):
@@ -171,7 +186,7 @@ def make_sem(spec):
         real = run_real(eng, t, make_semantics(kind, rlog))
         other = run_real(gen, t, make_semantics(kind, glog))
         ref = run_ref(t, flog)
-        if real[0] == 'raised' and real[1] not in [e.__name__ for e in EXC.values()]:
+        if real[0] == 'raised' and real[1] not in EXC_NAMES:
             return False, 'unexpected-exception', real[1]
         if not (real == ref):
             return False, 'model-vs-reference', [real[0], ref[0], real[1] if real[0] == 'raised' else skel(real[1]), ref[1] if ref[0] == 'raised' else skel(ref[1])]
@@ -210,7 +225,7 @@ def make_sem(spec):
 
     body.explain = explain
     n = spec['n']
-    body.warm = [tuple(map(ord, w)) for w in ['', 'a', 'b', 'ax', 'by', 'bx', 'bz', 'ab', 'ba', 'aax', 'abx', 'bb', 'aab', 'bc', 'abz', 'c', 'aa', 'az', 'bbb', 'aby',
+    body.warm = [tuple(map(ord, w)) for w in ['', 'a', 'b', 'a+b', 'b+a', 'a+a', 'a+', 'ax', 'by', 'bx', 'bz', 'ab', 'ba', 'aax', 'abx', 'bb', 'aab', 'bc', 'abz', 'c', 'aa', 'az', 'bbb', 'aby',
                                               'i', 'if', 'ift', 'zm', 'oz', 'tfi', 'mzo', 'fi'] if len(w) == n]
     return body
 
@@ -278,7 +293,9 @@ def plan(tier, seed):
         sems = SEMANTICS
         if tier == 'quick':
             sems = {'alt_retry': SEMANTICS[:9], 'params': ['tag', 'explicit_params', 'default_only', 'identity'], 'nomemo': ['tag', 'fail_b', 'raise_KeyError', 'identity'],
-                    'closure_calls': ['tag', 'fail_b', 'raise_TypeError'], 'scalars': ['identity', 'tag'], 'named_rule': ['tag', 'default_only', 'fail_b'], 'nested': ['tag', 'fail_b', 'raise_KeyError']}[gn]
+                    'closure_calls': ['tag', 'fail_b', 'raise_TypeError'], 'scalars': ['identity', 'tag'], 'leftrec': ['tag', 'fail_b', 'raise_ValueError', 'raise_UserParseException', 'raise_UserGrammarError'], 'named_rule': ['tag', 'default_only', 'fail_b'], 'nested': ['tag', 'fail_b', 'raise_KeyError']}[gn]
+        if tier != 'quick':
+            sems = list(sems) + (SEMANTICS_TATSU if gn in ('leftrec', 'alt_retry', 'nested') else [])
         for sk in sems:
             if sk == 'explicit_params' and gn != 'params':
                 continue
